@@ -266,6 +266,14 @@ func judgeRoundTrip(run *vrun.Run, m MIndex, tag string, viaFile string) {
 	if viaFile != "" {
 		path := filepath.Join(viaFile, "cache", "font_index_v6.cache")
 		var fback fs.VerifIndex
+		if buf.Len()%2 == 0 {
+			// the cache path already holds a (larger) cache file, as after fonts were removed:
+			// writing must replace it, not overwrite its beginning
+			os.MkdirAll(filepath.Dir(path), 0o700)
+			old := append(append([]byte(nil), buf.Bytes()...), bytes.Repeat([]byte{0xAB}, 64+buf.Len())...)
+			os.WriteFile(path, old, 0o600)
+			run.Cover("a:file-rewritten-over-a-larger-file")
+		}
 		pv, where := vrun.Catch(func() {
 			e1 = fs.VerifSerializeToFile(orig, path)
 			if e1 == nil {
